@@ -439,8 +439,12 @@ func (p Profile) nextTree(r *rand.Rand, c Cont, del bool) Edit {
 		k = 6
 	}
 	b := blocks[r.Intn(len(blocks))]
-	if p.TreeMixed && b.Size > 2 && r.Intn(100) < 65 {
-		at := b.Start + 1 + r.Intn(b.Size-1) // any cursor position inside the block
+	if p.TreeMixed && len(c.Parents) > 0 && r.Intn(100) < 65 {
+		// any cursor position directly inside some element; ranges are taken between two
+		// positions of the SAME element, so they never cross a tag (no merge)
+		tp := c.Parents[r.Intn(len(c.Parents))]
+		k1 := r.Intn(len(tp.Bounds))
+		at := tp.Bounds[k1]
 		switch x := r.Intn(10); {
 		case x < 3: // an inline element
 			n := TN{Type: []string{"b", "i"}[r.Intn(2)]}
@@ -448,12 +452,9 @@ func (p Profile) nextTree(r *rand.Rand, c Cont, del bool) Edit {
 				n.Kids = []TN{{Type: "text", Text: t}}
 			}
 			return Edit{Op: "tree.edit", Path: c.Path, I: at, J: at, T: []TN{n}}
-		case x < 6 || del && x < 8: // delete (or replace) a short range
-			to := at + 1 + r.Intn(4)
-			if to > b.Start+b.Size-1 {
-				to = b.Start + b.Size - 1
-			}
-			e := Edit{Op: "tree.edit", Path: c.Path, I: at, J: to}
+		case (x < 6 || del && x < 8) && k1 < len(tp.Bounds)-1: // delete (or replace) a short range
+			k2 := k1 + 1 + r.Intn(minInt(3, len(tp.Bounds)-1-k1))
+			e := Edit{Op: "tree.edit", Path: c.Path, I: at, J: tp.Bounds[k2]}
 			if r.Intn(4) == 0 {
 				e.T = []TN{{Type: "text", Text: randASCII(r, 1, 2)}}
 			}
@@ -461,9 +462,6 @@ func (p Profile) nextTree(r *rand.Rand, c Cont, del bool) Edit {
 		default: // text
 			return Edit{Op: "tree.edit", Path: c.Path, I: at, J: at, T: []TN{{Type: "text", Text: randASCII(r, 1, 3)}}}
 		}
-	}
-	if p.TreeMixed && b.Size == 2 && r.Intn(2) == 0 {
-		return Edit{Op: "tree.edit", Path: c.Path, I: b.Start + 1, J: b.Start + 1, T: []TN{{Type: "text", Text: randASCII(r, 1, 3)}}}
 	}
 	switch {
 	case k < 3 && b.OnlyTxt: // insert text inside block
